@@ -222,6 +222,19 @@ func (state *RequestContextState) Unmarshal(data []byte) error {
 	return nil
 }
 
+// The proto JSON codec writes both state enums with String() ("paused", "completed") but reads
+// them back through the registered value maps, which only hold the proto names; register the
+// written names as well, so that an exported genesis can be read back.
+func init() {
+	for name, state := range StringToRequestContextStateMap {
+		RequestContextState_value[name] = int32(state)
+	}
+
+	for name, state := range StringToRequestContextBatchStateMap {
+		RequestContextBatchState_value[name] = int32(state)
+	}
+}
+
 // MarshalJSON returns the JSON representation
 func (state RequestContextState) MarshalJSON() ([]byte, error) {
 	return json.Marshal(state.String())
